@@ -203,6 +203,38 @@ class Scenario:
         out.pair("the tensor that was assigned is not written to", snapshot(z.data), zsnap)
         return out
 
+    def _frozen_target(self, env, which):
+        """a target that does not require grad but still carries a gradient (trained, then frozen): outside the graph, so its
+        gradient is not touched either"""
+        from synapgrad import nn
+        out = E.Outcome()
+        Tn = T()
+        nm, mk_loss, dom = {"mse": ("MSELoss", lambda: nn.MSELoss(), {}), "mse_sum": ("MSELoss(sum)", lambda: nn.MSELoss(reduction="sum"), {}),
+                            "bce": ("BCELoss", lambda: nn.BCELoss(), dict(lo=0.1, hi=0.9)),
+                            "bce_logits": ("BCEWithLogitsLoss", lambda: nn.BCEWithLogitsLoss(), dict(lo=0.1, hi=0.9))}[which]
+        shp = (2,) if nm.startswith("MSE") else (1,)
+        pr = Tn(env.arr("pr", shp, **(dom if nm.startswith("BCELoss") else {})), requires_grad=True)
+        tg = Tn(env.arr("tg", shp, **dom), requires_grad=True)
+        (tg * 2.0).backward(Tn(env.arr("gt", shp)))
+        tg.requires_grad = False
+        kept_g, kept_d = snapshot(gradof(tg)), snapshot(tg.data)
+        mk_loss()(pr, tg).backward()
+        out.pair("%s: the gradient a frozen target still carries is untouched" % nm, snapshot(gradof(tg)), kept_g)
+        out.pair("%s: the frozen target's data is untouched" % nm, snapshot(tg.data), kept_d)
+        return out
+
+    def s_frozen_target_mse(self, env):
+        return self._frozen_target(env, "mse")
+
+    def s_frozen_target_mse_sum(self, env):
+        return self._frozen_target(env, "mse_sum")
+
+    def s_frozen_target_bce(self, env):
+        return self._frozen_target(env, "bce")
+
+    def s_frozen_target_bce_logits(self, env):
+        return self._frozen_target(env, "bce_logits")
+
     def s_loss_target_untouched(self, env):
         out = E.Outcome()
         Tn = T()
@@ -239,7 +271,8 @@ class Scenario:
 
 SCENARIOS = ["leaf_root_then_accumulate", "seed_reused_twice", "views_of_one_array", "tensor_used_by_several_ops",
              "clone_detach_independent", "clone_detach_independent_under_no_grad", "loss_target_untouched", "untracked_bridge",
-             "wrapped_tensor_own_gradient", "assigned_gradient_own_buffer"]
+             "wrapped_tensor_own_gradient", "assigned_gradient_own_buffer",
+             "frozen_target_mse", "frozen_target_mse_sum", "frozen_target_bce", "frozen_target_bce_logits"]
 
 
 def enumerate_specs(tier):
